@@ -103,6 +103,9 @@ def gen_universe(rng: random.Random, **opts: Any) -> dict:
                 links.append(
                     {"from": "read", "to": "delete", "key": "200", "by": "operationId", "params": {"id": "$response.body#/id"}}
                 )
+        if want_links and id_type == "string" and "create" in kinds and "read" in kinds and rng.random() < opts.get("p_suffix_link", 0.0):
+            # a link that deliberately addresses a *different* identifier which merely extends the created one ("r1" -> "r1s")
+            links.append({"from": "create", "to": "read", "key": "201", "by": "operationId", "params": {"id": "{$response.body#/id}s"}})
         if opts.get("link_repertoire"):
             links = gen_link_repertoire(rng, kinds, props, required, qparams, id_type, opts)
         examples = []
@@ -595,7 +598,7 @@ class Universe:
             if desc.get("yaml_quirks"):
                 # what a hand-written YAML document looks like: unquoted status codes, on/off keys, date-like scalars
                 text = re.sub(r"'(\d{3})':", r"\1:", text)
-                text = re.sub(r"'(on|off|yes|no)':", r"\1:", text)
+                text = re.sub(r"'(on|off|yes|no|null|~|1\.5|2e3)':", r"\1:", text)
                 text = re.sub(r"'(\d{4}-\d{2}-\d{2})'", r"\1", text)
             return text.encode()
 
@@ -606,6 +609,11 @@ class Universe:
                 if name.startswith("New"):
                     sch["properties"]["on"] = {"type": "boolean"}
                     sch["properties"]["since"] = {"type": "string", "example": "2020-01-01"}
+                    # float-looking and null-looking names: unquoted in YAML, still property *names*
+                    sch["properties"]["1.5"] = {"type": "integer", "minimum": 0, "maximum": 3}
+                    sch["properties"]["2e3"] = {"type": "boolean"}
+                    sch["properties"]["null"] = {"type": "boolean"}
+                    sch["properties"]["~"] = {"type": "boolean"}
         if desc.get("layout") != "multi":
             return {f"/openapi.{ext}": (dump(doc), ctype)}
         # three files: root, paths, common. Path items behind $ref use schemas from the common file; inline path items
